@@ -14,6 +14,21 @@ def check(pid, category, text, note, technique, design_ref):
     }
 
 CHECKS = [
+    check("C07", "proof",
+          "Coq theorems: a disk invariant (unique mtimes, sound remembered states, content-addressed cache, sound table) holds of the empty world, is preserved by EVERY primitive action on shared state (back-up, restore, command/user writes, state-file writes, deletions) and therefore after any sequence of them — every interleaving of the rule threads and every prefix of it (crash point); remembered states of a thread stay sound while others act; the modelled build and clean are such sequences; hence the cache is content-addressed after every history over the C01 alphabet, for any hash type (no collision assumption needed). Model tied to the code by histories and crash-point enumeration on an instrumented in-memory System, with the cache listing compared literally (43-character names) and every name recomputed from the bytes.",
+          "Trusted: Coq kernel, extraction, harness (MemSys fidelity to the real file system), that the implementation's threads perform only the modelled primitive actions (proved for the sequential model, sampled for the code); fine clock assumption from the property; correspondence is sampling.",
+          "Coq proof (invariant preserved by every step of a primitive-action LTS; induction over histories) + differential correspondence on histories and crash points",
+          "DESIGN.md 5 C07"),
+    check("C08", "proof",
+          "Coq theorems: at every state satisfying the disk invariant (every reachable state under any schedule, by C07) every action of ruler itself — back-up, restore into a target path, state-file write, directory creation — keeps every content that is in the cache or at a declared target path (an overwritten cache entry holds the same content, by content addressing and injectivity of the hash; restores go to empty paths); the unrestricted literal statement is refuted with a witness, and the general form (content stays protected or sits at a formerly empty path) is proved. Whole builds with deterministic commands are monitored (content-set inclusion before/after every build and clean, at every crash point, no rename over different content), not proved.",
+          "Trusted: as C07; collision freedom idealised; commands atomic and deterministic (property's assumption) for the monitored whole-build form.",
+          "Coq proof (per-step content monotonicity under the disk invariant) + monitors and differential correspondence on histories and crash points",
+          "DESIGN.md 5 C08"),
+    check("C12", "proof",
+          "Coq theorems about the sorter model (the same iterative DFS machine as sort.rs: frame buffer, explicit stack, indices_in_stack, reverser, final_index) against a declarative reachability specification, for ALL rule lists and goals: totality; acceptance IFF (no duplicate target, goal is a target, no reachable cycle); each error kind is sound (duplicate occurs twice, goal is no target, self-dependent rule in scope, a cycle is reachable); on success the plan is exactly the in-scope rules once each, every Pair(i,sub) points to an earlier node whose sub-th target is that source, every Leaf names a non-target source, leaves exact and duplicate-free; the result is invariant under permuting the input rules. Proof by a 17-component machine invariant. Model tied to topological_sort{,_all} by exact comparison on every small graph and random large ones, with an independent plan checker.",
+          "Trusted: Coq kernel, extraction, harness; std collections modelled by lists; correspondence is sampling (exhaustive up to 4 rules).",
+          "Coq proof (machine invariant over the DFS, measure for termination, sort/permutation lemmas) + differential correspondence, exhaustive on small graphs",
+          "DESIGN.md 5 C12"),
     check("C13", "proof",
           "Coq theorems: the hashed serialisation of a rule is injective on everything the parser can produce (proved: parse only returns rules with non-empty, newline-free strings), canonical forms coincide iff targets and sources are permutations of each other and the command lines are equal in order, re-ordering never changes the identity; a refutation outside the parser's range shows the hypothesis is needed. Model tied to Rule::get_ticket by differential runs on near-miss pairs, with a monitor comparing identities against the property's own 'same rule'.",
           "Trusted: Coq kernel, extraction, harness; SHA-256 collision freedom idealised (theorems speak about preimages); correspondence is sampling.",
